@@ -317,7 +317,9 @@ def run(ctx):
     ctx.rule = ('(i) the real _create_problem_a of LmiEdmdHinfReg (no weight / pre / post first-order filters) and '
                 '_create_ss evaluated with PICOS at dyadic points vs the Lean blocks over Q (1e-12); (ii) scripted-solver '
                 'loop correspondence; (iii) cvxopt fits of both families with and without weights: stability and an '
-                'independently computed H-infinity norm (dense frequency sweep + refinement) vs gamma_')
+                'independently computed H-infinity norm (dense frequency sweep + refinement) vs gamma_; (iv) G(z)u at rational points of '
+                'the unit circle: exact rational solve in the Lean driver (hypotheses of brl_freq_real checked on the solution) vs complex '
+                'arithmetic, KoopmanRegressor.frequency_response and the H-infinity oracle')
     ctx.explanation = ('theorems C10_* (bounded-real core, dissipation, l2-gain over every horizon with no side condition, '
                        'stability from the 2x2 sub-block via C09, frequency-domain bound |G(z)u| <= gamma|u| on the whole unit circle: C10_hinf_norm); correspondence of LMI structure, series connection and '
                        'loop; oracle: norm <= gamma_(1+1e-4), stability, monotone log')
@@ -373,6 +375,64 @@ def run(ctx):
             if not np.array_equal(reg.coef_.T, wantU):
                 ctx.mismatch('returned U', case, reg.coef_.T.tolist(), [ui])
     ctx.attempt('scripted loop', _sec_scripted_loop)
+    def _sec_frequency_response():
+        """the object of C10_hinf_norm - G(z)u for a point z of the unit circle - computed EXACTLY by the Lean driver (rational
+        solve of the real form of z x = A x + B u, with the hypotheses of brl_freq_real checked on the solution) vs numpy's
+        complex arithmetic, vs KoopmanRegressor.frequency_response at the same frequency, and vs the independent H-infinity
+        oracle used on the fits (which must dominate every point)"""
+        circle = [(Fraction(3, 5), Fraction(4, 5)), (Fraction(5, 13), Fraction(12, 13)), (Fraction(-7, 25), Fraction(24, 25)),
+                  (Fraction(0), Fraction(1)), (Fraction(-1), Fraction(0)), (Fraction(1), Fraction(0)), (Fraction(-3, 5), Fraction(4, 5)),
+                  (Fraction(8, 17), Fraction(15, 17))]
+        lines, meta = [], []
+        for i in range(ctx.n(24, 300)):
+            n, m = ctx.rng.randint(1, 3), ctx.rng.randint(1, 2)
+            A = lc.dyadic(ctx.rng, (n, n), lo=-1, hi=1, den=8)
+            if np.max(np.abs(np.linalg.eigvals(A))) > 0.9:
+                A = A / 2
+            B = lc.dyadic(ctx.rng, (n, m), lo=-2, hi=2)
+            c, s_ = circle[i % len(circle)]
+            for j in range(m):
+                e = [1 if t == j else 0 for t in range(m)]
+                lines.append(f"freq {n} {m} {n} {lc.fr(c)} {lc.fr(s_)} {lc.mat_tok(A)} {lc.mat_tok(B)} {lc.mat_tok(np.eye(n))} "
+                             f"{lc.mat_tok(np.zeros((n, m)))} {' '.join(str(v) for v in e)} {' '.join('0' for _ in e)}")
+            meta.append((A, B, c, s_, m))
+        reps = iter(lc.la_ask(lines))
+        for A, B, c, s_, m in meta:
+            n = A.shape[0]
+            case = {'A': A.tolist(), 'B': B.tolist(), 'z': [str(c), str(s_)]}
+            ctx.count('frequency response')
+            ctx.record_case(case, True)
+            cols = []
+            for j in range(m):
+                t = next(reps).split()
+                if t[0] != 'ok':
+                    cols = None
+                    continue
+                k = int(t[1])
+                v = [float(Fraction(x)) for x in t[2:2 + 2 * k]]
+                if cols is not None:
+                    cols.append(np.array(v[:k]) + 1j * np.array(v[k:]))
+            z = float(c) + 1j * float(s_)
+            Gn = np.linalg.solve(z * np.eye(n) - A, B)
+            if cols is None:
+                ctx.mismatch('frequency response: the model says z I - A is singular', case, Gn.tolist(), None)
+                continue
+            G = np.array(cols).T
+            if not np.allclose(G, Gn, rtol=1e-10, atol=1e-12):
+                ctx.mismatch('G(z) of the Lean model differs from complex arithmetic', case, Gn.tolist(), G.tolist())
+                continue
+            sig = np.linalg.svd(G, compute_uv=False)[0]
+            reg = pykoop.DataRegressor(coef=np.hstack((A, B)).T)
+            reg.fit(np.zeros((3, n + m)), n_inputs=m, episode_feature=False)
+            f = float(np.arctan2(float(s_), float(c)) / (2 * np.pi))
+            fp, mag = reg.frequency_response(t_step=1.0, f_min=f, f_max=f, n_points=1, decibels=False)
+            fp2, mag_db = reg.frequency_response(t_step=1.0, f_min=f, f_max=f, n_points=1, decibels=True)
+            if abs(mag[0] - sig) > 1e-9 * max(1.0, sig) or (sig > 0 and abs(mag_db[0] - 20 * np.log10(sig)) > 1e-7):
+                ctx.mismatch('frequency_response differs from the largest singular value of the model\'s G(z)', case,
+                             [float(mag[0]), float(mag_db[0])], [float(sig)])
+            if np.max(np.abs(np.linalg.eigvals(A))) < 1 and hinf_norm(A, B, np.eye(n), np.zeros((n, m)), 800) < sig * (1 - 1e-6):
+                ctx.mismatch('the H-infinity oracle is below the gain at a point of the unit circle', case, None, [float(sig)])
+    ctx.attempt('frequency response', _sec_frequency_response)
     sweeps = [('post', fam) for fam in ('edmd', 'dmdc') for _ in range(4)] + [('pre', 'edmd'), ('pre', 'dmdc')]   # second-order weights, two states
     for i in range(ctx.n(14, 250) + len(sweeps)):
         why, case, note = oracle_fit(ctx, ctx.tier == 'thorough', forced=sweeps[i] if i < len(sweeps) else None)
